@@ -41,6 +41,7 @@ def main():
         out = os.fdopen(proto_fd, "w")
         out.write(json.dumps({"ready": True, "hashseed": os.environ.get("PYTHONHASHSEED")}) + "\n")
         out.flush()
+        nshrunk = 0
         for line in sys.stdin:
             line = line.strip()
             if not line:
@@ -55,7 +56,16 @@ def main():
                     if res["violations"] and not job.get("noshrink"):
                         from vsim import shrink
 
-                        res["violations"] = [shrink.minimize(mod, v, env) for v in res["violations"][:3]]
+                        # minimisation is expensive: a shard minimises the first two violations it
+                        # meets in full, later ones are passed on as found
+                        vs = []
+                        for v in res["violations"][:3]:
+                            if nshrunk < 2:
+                                nshrunk += 1
+                                vs.append(shrink.minimize(mod, v, env))
+                            else:
+                                vs.append(v)
+                        res["violations"] = vs
             except BaseException as e:  # harness failure: reported, never a verdict
                 res = {"job": job, "fatal": "".join(traceback.format_exception(type(e), e, e.__traceback__))[-4000:]}
             env.trim_cache()
